@@ -119,7 +119,7 @@ def check(prop, tier, seed):
                 "before_initialization) + shared-configuration sequences; oracle: canonical dump of config and task "
                 "(declared fields, private children, data) identical before/after, also on the exception path; "
                 "non-trivial = call returned or raised and the dumps were compared")
-    rep.require("optimizers_observed", len(opts_seen), 84)
+    rep.require("optimizers_observed", len(opts_seen), 80)
     rep.require("runs_that_raised", raised, 84)
     rep.require("shared_config_sequences", shared_ok, 70)
     rep.require("fields_compared", counters["sum_c09_fields_compared"], 10000)
